@@ -16,6 +16,10 @@ from pathlib import Path
 
 MODE = "check"
 
+#: root of the repository under test (the seed-confirmation tool points it to a
+#: scratch worktree so that /repo is never modified)
+REPO = Path(os.environ.get("XV_REPO", "/repo"))
+
 #: set by the worker: the shard parameters of the running condition
 SHARD: dict = {}
 
